@@ -32,6 +32,7 @@ func genC01(t *rapid.T) Case {
 			op.Len = GenLen(t, true)
 			op.Via, op.Split = GenVia(t, op.Len)
 			op.CancelClose = GenCancelClose(t, op.Via)
+			op.Src = GenSrc(t, op.Via)
 		}
 		// now and then the caller's context is already cancelled: the inline binding ignores it
 		if rapid.IntRange(0, 11).Draw(t, "cctx") == 0 {
